@@ -133,8 +133,8 @@ class C16(CheckBase):
     def gen(self, ch: Choices, tier: str) -> dict:
         ndirs = 1 + ch.choose(3)
         dirs = ["d%d" % i for i in range(ndirs)]
-        names = ch.sample(["a.pt", "b.pt", "index", "x.y.pt", "page.html"],
-                          1 + ch.choose(3))
+        names = ch.sample(["a.pt", "b.pt", "index", "x.y.pt", "page.html",
+                           ".hid"], 1 + ch.choose(3))
         default_ext = ch.pick([None, None, ".pt", "pt", ".html"])
         auto = ch.coin(0.8)
         search = ch.shuffle(dirs)
@@ -208,7 +208,8 @@ class C16(CheckBase):
                 nme = ch.pick(names)
                 spec = ch.weighted([
                     (6, nme), (1, " " + nme + " "),
-                    (2, nme.split(".")[0]),
+                    (2, nme.split(".")[0] or nme),
+                    (1, "./" + nme), (1, "./" + (nme.split(".")[0] or nme)),
                     (1, ch.pick(dirs) + "/" + nme),
                     (1, "missing.pt")], "spec")
                 ops.append(["load", spec, ch.pick(["render", "render",
@@ -475,8 +476,9 @@ class C16(CheckBase):
             if os.path.isabs(s):
                 return s[len(root) + 1:] if s.startswith(root) else s, None
             for d in case["search_path"]:
-                if (d + "/" + s) in fsm:
-                    return d + "/" + s, None
+                cand = os.path.normpath(d + "/" + s)
+                if cand in fsm:
+                    return cand, None
                 # directories are files too for os.path.exists
             return None, "ValueError"
 
@@ -817,7 +819,7 @@ class C16(CheckBase):
                             f"load({spec!r}) returned a different instance "
                             "than the previous load of the same name"))
                         lo.real = t
-                    if str(t.filename) != want_fn:
+                    if os.path.normpath(str(t.filename)) != want_fn:
                         violations.append(self._v(
                             "loader-resolution", i, op,
                             f"load({spec!r}) resolved to "
